@@ -32,6 +32,7 @@ RULE += ' Round 6: every progress history of four value / maximum updates follow
 RULE += ' Round 7: last=False / last=0 spelled out; callable senders; every progress history of depth 3 with a callback that clamps an overshoot by updating the reporter from inside the dispatch.'
 RULE += ' Round 11: a callback that returns None; unconnect by what connect handed back; silent() objects created before a set_silent and entered afterwards.'
 RULE += ' Round 12: a callback that emits the event it is handling (every history of depth <= 4 over a 12-operation alphabet); emits whose sender is None.'
+RULE += ' Round 13: a functools.partial callback; a connect(...) decorator kept and applied after other operations.'
 EXHAUSTIVE = {'quick': True, 'thorough': True}
 EXHAUSTIVE_SCOPE = {'quick': 'dispatch depth 4 (23 ops), progress depth 4 (15 ops)',
                     'thorough': 'dispatch depth 5, progress depth 6'}   # quick adds every progress history of 4 value/maximum updates + 1 operation
